@@ -894,6 +894,55 @@ async fn limited_flood_family(cli: &Cli, report: &mut Report, late: &LateLog) {
     }
 }
 
+/// Thousands of different client addresses were seen recently (a scan, a bot net, or simply a busy
+/// evening behind PROXY protocol): a newcomer with an address of its own must still be served.
+async fn many_sources_family(cli: &Cli, report: &mut Report) {
+    let rounds = cli.scaled(if cli.tier == Tier::Thorough { 3 } else { 1 });
+    for round in 0..rounds {
+        let direct = {
+            let _g = START.lock().await;
+            start_direct(DirectSpec { timeout: SERVER_TIMEOUT, limiter: Some((Duration::from_secs(3600), 3)), proxy: Some((true, true)), ..Default::default() }).await
+        };
+        let addr = direct.addr;
+        let n_sources = 6_000usize;
+        let mut tasks = vec![];
+        for t in 0..16usize {
+            tasks.push(tokio::spawn(async move {
+                let mut done = 0usize;
+                let mut i = t;
+                while i < n_sources {
+                    // 10.a.b.c, all distinct
+                    let src: SocketAddr = format!("10.{}.{}.{}:{}", 1 + i / 65536, (i / 256) % 256, i % 256, 20000 + (i % 30000)).parse().expect("addr");
+                    if let Ok(mut s) = tokio::net::TcpStream::connect(addr).await {
+                        use tokio::io::AsyncWriteExt;
+                        let _ = s.write_all(&tcp::proxy_v2(src, addr)).await;
+                        let _ = s.set_linger(Some(Duration::ZERO));
+                        done += 1;
+                    }
+                    i += 16;
+                }
+                done
+            }));
+        }
+        let mut announced = 0usize;
+        for t in tasks {
+            announced += t.await.unwrap_or(0);
+        }
+        // give the listener a moment to work through them
+        tokio::time::sleep(Duration::from_millis(500)).await;
+        let p = probe("after-many-sources", addr, true, 8_000 + round, BOUND + Duration::from_secs(5)).await;
+        direct.stop.cancel();
+        report.eval(Some(&format!("many-sources/{round}")));
+        report.count("many sources: distinct client addresses announced before the probe", announced as u64);
+        report.count("probes measured", 1);
+        let detail = json!({"round": round, "distinct_sources_before": announced, "probe_latency_ms": p.latency().map(|d| d.as_secs_f64() * 1000.0), "probe_clientbound": p.clientbound});
+        report.sample(json!({"case": "probe from a new address after thousands of other addresses were seen", "observed": detail}));
+        if !p.served_within_bound() {
+            report.violation("probe-delayed/proxy-on/after-many-other-addresses", &format!("a client with an address of its own was not served within {BOUND:?} after {announced} other addresses had connected"), detail);
+        }
+    }
+}
+
 pub async fn run_prop(cli: &Cli) -> i32 {
     let mut report = Report::new(
         cli,
@@ -908,6 +957,7 @@ pub async fn run_prop(cli: &Cli) -> i32 {
     if cli.replay.is_none() {
         let late = LateLog::start(Duration::from_millis(20));
         limited_flood_family(cli, &mut report, &late).await;
+        many_sources_family(cli, &mut report).await;
     }
     report.finish()
 }
